@@ -85,10 +85,38 @@ type Status struct {
 	NNP     int `json:"nnp"`
 }
 
+// procFD: a descriptor of /proc taken before Jail changed the root (-1: the path /proc is used).
+var procFD = -1
+
+// Jail changes the root of the process to an empty directory: no /proc, no /dev, no files at all - what a service that
+// confines itself sees. The harness keeps a descriptor of /proc for its own observations; the code under test gets nothing.
+func Jail(dir string) error {
+	fd, err := syscall.Open("/proc", syscall.O_RDONLY|syscall.O_DIRECTORY|syscall.O_CLOEXEC, 0)
+	if err != nil {
+		return err
+	}
+	if err := syscall.Chroot(dir); err != nil {
+		return err
+	}
+	procFD = fd
+	return syscall.Chdir("/")
+}
+
+func openProc(rel string) (*os.File, error) {
+	if procFD < 0 {
+		return os.Open("/proc/" + rel)
+	}
+	fd, err := syscall.Openat(procFD, rel, syscall.O_RDONLY|syscall.O_CLOEXEC, 0)
+	if err != nil {
+		return nil, err
+	}
+	return os.NewFile(uintptr(fd), "/proc/"+rel), nil
+}
+
 // ReadStatus reads Seccomp, Seccomp_filters and NoNewPrivs of a thread.
 func ReadStatus(tid int) (Status, error) {
 	st := Status{Tid: tid, Seccomp: -1, Filters: -1, NNP: -1}
-	f, err := os.Open(fmt.Sprintf("/proc/self/task/%d/status", tid))
+	f, err := openProc(fmt.Sprintf("self/task/%d/status", tid))
 	if err != nil {
 		return st, err
 	}
@@ -111,7 +139,12 @@ func ReadStatus(tid int) (Status, error) {
 
 // Tasks lists the thread ids of the process.
 func Tasks() ([]int, error) {
-	ents, err := os.ReadDir("/proc/self/task")
+	d, err := openProc("self/task")
+	if err != nil {
+		return nil, err
+	}
+	ents, err := d.ReadDir(-1)
+	d.Close()
 	if err != nil {
 		return nil, err
 	}
